@@ -105,6 +105,18 @@ CLAIMED = {
              'Proved for the code after fix 6160d29 (the sweep no longer raises KeyError). No axioms.',
         technique='Coq invariant proof (ownership counting + sweep-coverage invariant) by induction over arbitrary event interleavings; trace correspondence with suspending hooks',
         design='6 (C14)'),
+    'C09': dict(
+        text='Coq theorem (Props/C09.v) over an executable model of put_delivery_segmented: for ANY family of messages with pairwise distinct '
+             'references, each cut into any number >= 2 of segments, and ANY arrival order and interleaving without duplicates, the k-th arrival '
+             'returns the complete text (segments joined in numeric order - proved through a sorting-uniqueness lemma) exactly when it is the last '
+             'missing segment of its message and nothing otherwise, and never fails. Tied to the code by feeding deliver_sm PDUs built by an '
+             'independent encoder (SAR TLVs, UDH 8/16-bit, GSM/UCS2, short_message/message_payload) to the real receiver loop '
+             '(_receive_data + from_pdu + SimpleCorrelator) and comparing the received-hook calls with the model; the oracle also checks one '
+             'delivery per message with the exact text and a deliver_sm_resp echoing every segment; all permutations of 2..5 (thorough 6) segments.',
+        note='Trusted: Coq kernel, harness + smppref.py, asyncio. Domain: no duplicate segments, distinct references among concurrently incomplete '
+             'messages, delivery TTL not reached. Proved for the code after fixes 7dca4fc, 00c3b4e, d468104 (16-bit reference, numeric join order, UDH in message_payload). No axioms.',
+        technique='Coq proof: invariant over arrival prefixes + uniqueness of strictly sorted lists; PDU-level trace correspondence through the real receiver',
+        design='6 (C09)'),
 }
 
 PENDING_REASON = 'check not built yet in this round (planned, see DESIGN.md section 6); not claimed until its proof and correspondence run exist'
